@@ -162,6 +162,9 @@ struct Run<'a> {
     panic_mark: usize,
     /// hook events taken early (by the end-to-end admission check) and still to be absorbed
     pending_events: Vec<rt::Rec>,
+    /// keys that were past their time-to-live before a full sweep cycle began and are still held after it (owned by C10;
+    /// other foci continue and name the state "expired-overdue" instead of "expired-unswept")
+    overdue: BTreeMap<u64, (u64, u128)>,
 }
 
 fn has(props: &[&'static str], p: &str) -> bool { props.iter().any(|x| *x == p) }
@@ -177,6 +180,13 @@ impl<'a> Run<'a> {
                 Some(expiry) => if (self.now() as u128) > expiry { KeyState::ExpiredUnswept } else { KeyState::LiveTtl },
             },
         }
+    }
+
+    /// like `KeyState::name`, but an expired key that has already survived a full sweep cycle is no longer merely "unswept"
+    fn state_name(&self, key: u64, state: KeyState) -> &'static str {
+        // only while the very same incarnation with the very same deadline is still held
+        let same = match (self.overdue.get(&key), self.model.get(&key)) { (Some((id, expiry)), Some(entry)) => entry.id == *id && entry.expiry == Some(*expiry), _ => false };
+        if state == KeyState::ExpiredUnswept && same { "expired-overdue" } else { state.name() }
     }
 
     fn readable(&self, key: u64) -> bool { matches!(self.state(key), KeyState::Live | KeyState::LiveTtl) }
@@ -643,8 +653,9 @@ impl<'a> Run<'a> {
         match status {
             CommandStatus::Rejected(RejectionReason::KeyAlreadyExists) => {
                 let props: &[&'static str] = if op.is_put() { &["C07"] } else { &["C08"] };
-                self.fail(props, format!("C07/key-already-exists-for-unreadable-key/{}/{}", state.name(), verb),
-                          format!("{} of key {} (state {}: it reads as absent) was rejected with KeyAlreadyExists", verb, key, state.name()));
+                let name = self.state_name(key, state);
+                self.fail(props, format!("C07/key-already-exists-for-unreadable-key/{}/{}", name, verb),
+                          format!("{} of key {} (state {}: it reads as absent) was rejected with KeyAlreadyExists", verb, key, name));
             }
             CommandStatus::Rejected(RejectionReason::KeyWeightIsGreaterThanCacheWeight) => {
                 self.admission_rejects += 1;
@@ -771,7 +782,8 @@ impl<'a> Run<'a> {
                 self.lookups += 1;
                 let got = read_ref(&self.sut.cache, key);
                 if got.map(|g| g.0) != Some(entry.value) {
-                    self.fail(&["C08"], format!("C08/accepted-upsert-lost/expired-unswept/{}", op.shape()),
+                    let name = self.state_name(key, state);
+                    self.fail(&["C08"], format!("C08/accepted-upsert-lost/{}/{}", name, op.shape()),
                               format!("{} of key {} (past its time-to-live, not yet swept: it reads as absent) was acknowledged as accepted but the key reads {:?}", op.shape(), key, got));
                     return;
                 }
@@ -843,12 +855,42 @@ impl<'a> Run<'a> {
                       format!("another thread read {:#x} for key {} after delete() had returned", value, key));
             return;
         }
+        // a value-less upsert (time-to-live only / weight only) made by a client that does not know about the delete must not
+        // bring the deleted value back; what the upsert itself answers is not judged (the key reads as absent: precondition)
+        let mut valueless_ack = None;
+        if was_readable && self.rng.chance(1, 2) {
+            let shape = self.rng.below(3);
+            let op = match shape {
+                0 => WriteOp::Upsert { key, value: None, weight: None, ttl: Some(Duration::from_secs(50 + self.rng.below(50))), remove_ttl: false },
+                1 => WriteOp::Upsert { key, value: None, weight: Some(self.key_cap(key).min(40)), ttl: None, remove_ttl: false },
+                _ => WriteOp::Upsert { key, value: None, weight: Some(30), ttl: None, remove_ttl: true },
+            };
+            self.counts.inc(format!("op:{}:soft-deleted", op.shape()));
+            self.history.push(op.to_json().with("note", J::s("value-less upsert inside the delete window")));
+            if let Issued::Ack(ack, uid) = issue(&self.sut.cache, &op) { valueless_ack = Some((ack, uid, op)); }
+            for variant in 0..7 {
+                self.lookups += 1;
+                let got = read(&self.sut.cache, variant, key);
+                self.counts.inc("reads_inside_delete_window_after_a_valueless_upsert");
+                if let Some(value) = got {
+                    sched().release(Site::WorkerDequeued);
+                    self.fail(&["C04", "C02"], format!("C04/deleted-value-visible-after-valueless-upsert/{}", READ_VARIANTS[variant]),
+                              format!("{} returned {:#x} for key {} after delete() had returned and a value-less put_or_update touched the key", READ_VARIANTS[variant], value, key));
+                    return;
+                }
+            }
+        }
         let issued_then = then.as_ref().map(|op| {
             self.counts.inc(format!("op:{}:soft-deleted", op.shape()));
             self.crit(&format!("upsert:{}:soft-deleted", op.shape()));
             issue(&self.sut.cache, op)
         });
         sched().release(Site::WorkerDequeued);
+        if let Some((ack, uid, op)) = valueless_ack {
+            let waited = rt::await_ack(ack.handle(), uid, &self.sut.marks);
+            if uid != 0 { recorder().forget_acked(uid); }
+            if !matches!(waited, Waited::Ready(_)) { self.fail(&["C12"], format!("C12/abnormal-acknowledgement/{}", waited_name(&waited)), format!("{} inside the delete window: {}", op.shape(), waited_name(&waited))); return; }
+        }
         let delete_status = match self.wait(issued_delete, &delete, state) { Some(s) => s, None => return };
         let expect_accept = held_entry.is_some();
         let ok = match (expect_accept, state) {
@@ -909,9 +951,13 @@ impl<'a> Run<'a> {
         if self.stop { return; }
         for key in must_go {
             if self.model.contains_key(&key) {
-                self.fail(&["C10"], "C10/expired-key-survived-a-full-cycle".into(),
-                          format!("key {} expired before the cycle began and is still held after the clock dwelt on {} consecutive seconds with a completed sweep each", key, self.cfg.sut.shards));
-                return;
+                if matches!(self.cfg.focus, "C10" | "C05") {
+                    self.fail(&["C10"], "C10/expired-key-survived-a-full-cycle".into(),
+                              format!("key {} expired before the cycle began and is still held after the clock dwelt on {} consecutive seconds with a completed sweep each", key, self.cfg.sut.shards));
+                    return;
+                }
+                if let Some(entry) = self.model.get(&key) { if let Some(expiry) = entry.expiry { self.overdue.insert(key, (entry.id, expiry)); } }
+                self.counts.inc("keys_overdue_after_a_full_cycle");
             }
         }
         self.crit("full-cycle");
@@ -1121,6 +1167,8 @@ impl<'a> Run<'a> {
 
     fn after_step(&mut self, context: &str) {
         if self.stop { return; }
+        let model = &self.model;
+        self.overdue.retain(|k, (id, expiry)| model.get(k).map(|e| e.id == *id && e.expiry == Some(*expiry)).unwrap_or(false));
         self.absorb_events();
         if self.stop { return; }
         self.check_structure(context);
@@ -1200,7 +1248,7 @@ pub fn run_history(cfg: &SeqCfg) -> SeqOut {
     let mut run = Run {
         cfg, sut, model: BTreeMap::new(), rng: rt::rng_for(cfg.seed, cfg.index, 0x5EC), findings: Vec::new(), counts: Counts::default(),
         critical: BTreeSet::new(), history: Vec::new(), sig: 0xcbf2_9ce4_8422_2325, lookups: 0, admission_rejects: 0, token_counter: 0,
-        read_rotation: cfg.index as usize, stop: false, dead_ids: BTreeSet::new(), evictions_seen: 0, noise_on: cfg.noise_threads > 0, last_state: KeyState::Absent, panic_mark: rt::panic_count(), pending_events: Vec::new(),
+        read_rotation: cfg.index as usize, stop: false, dead_ids: BTreeSet::new(), evictions_seen: 0, noise_on: cfg.noise_threads > 0, last_state: KeyState::Absent, panic_mark: rt::panic_count(), pending_events: Vec::new(), overdue: BTreeMap::new(),
     };
     let stop_noise = Arc::new(AtomicBool::new(false));
     let mut noise_handles = Vec::new();
